@@ -718,6 +718,10 @@ func (bucket *TypedBucket) CheckAndSetListEntry(fieldType FieldType, value []byt
 }
 
 func (bucket *TypedBucket) SetLinkCount(fieldType FieldType, value []byte, count int) (*int32, error) {
+	if count < 0 || count > math.MaxInt32 {
+		// counts are stored as int32; a negative count, or one which wraps around to zero or below, is no count
+		return nil, errors.Errorf("invalid link count %v", count)
+	}
 	if !bucket.HasError() {
 		key := string(PrependFieldType(fieldType, value))
 		current := bucket.GetInt32(key)
